@@ -36,6 +36,7 @@ type Ctx struct {
 	encaps    []*EncapDecl
 	globalFacts []*GlobalFact
 	constMaps []*ConstMap
+	routes    []*RouteTable
 	axioms    []*Lemma
 	axiomSyms map[string][]string
 	specFiles []*SpecFile
@@ -302,6 +303,7 @@ func (c *Ctx) loadSpecs(extra []string) error {
 		c.encaps = append(c.encaps, sf.Encaps...)
 		c.globalFacts = append(c.globalFacts, sf.GFacts...)
 		c.constMaps = append(c.constMaps, sf.CMaps...)
+		c.routes = append(c.routes, sf.Routes...)
 		c.axioms = append(c.axioms, sf.Axioms...)
 	}
 	for _, ax := range c.axioms {
@@ -858,5 +860,128 @@ func (c *Ctx) checkConstMap(cm *ConstMap) []string {
 			problems = append(problems, fmtf("the initialiser of %s does not put the key %q", cm.Var, k))
 		}
 	}
+	return problems
+}
+
+// checkRouteTable decides a `routetable` declaration over the whole package (see RouteTable).
+func (c *Ctx) checkRouteTable(rt *RouteTable, prop string) []string {
+	var problems []string
+	in := func(l []string, x string) bool { return containsStr(l, x) }
+	var classify func(v ssa.Value, where *ssa.Function, depth int) string
+	handlerName := func(fn *ssa.Function) string {
+		if fn.Synthetic != "" {
+			// bound-method closure / thunk: name the method it wraps
+			if tf, ok := fn.Object().(*types.Func); ok {
+				if real := c.prog.FuncValue(tf); real != nil {
+					fn = real
+				}
+			}
+		}
+		l := c.label(fn)
+		l = strings.TrimSuffix(l, "$bound")
+		l = strings.TrimSuffix(l, "$thunk")
+		return l
+	}
+	okHandler := func(l string) string {
+		if in(rt.Public, l) {
+			return ""
+		}
+		if in(rt.Guarded, l) {
+			fc := c.contracts[l]
+			if fc == nil || fc.Extern || !hasProp(fc, prop) {
+				return "guarded handler " + l + " is not under contract for " + prop
+			}
+			return ""
+		}
+		return "handler " + l + " is neither listed public nor guarded"
+	}
+	classify = func(v ssa.Value, where *ssa.Function, depth int) string {
+		if depth > 8 {
+			return "handler value too deeply nested to classify"
+		}
+		switch v := v.(type) {
+		case *ssa.MakeClosure:
+			return okHandler(handlerName(v.Fn.(*ssa.Function)))
+		case *ssa.Function:
+			return okHandler(handlerName(v))
+		case *ssa.ChangeType:
+			return classify(v.X, where, depth+1)
+		case *ssa.MakeInterface:
+			return classify(v.X, where, depth+1)
+		case *ssa.Phi:
+			for _, e := range v.Edges {
+				if p := classify(e, where, depth+1); p != "" {
+					return p
+				}
+			}
+			return ""
+		case *ssa.Call:
+			if callee := v.Call.StaticCallee(); callee != nil && in(rt.Wrappers, c.label(callee)) {
+				n := 0
+				for _, a := range v.Call.Args {
+					if _, isSig := a.Type().Underlying().(*types.Signature); isSig {
+						n++
+						if p := classify(a, where, depth+1); p != "" {
+							return p
+						}
+					}
+				}
+				if n == 0 {
+					return "wrapper " + c.label(callee) + " called without a handler argument"
+				}
+				return ""
+			}
+			return "handler produced by an unlisted call (" + c.calleeLabel(&v.Call) + ")"
+		case *ssa.Parameter:
+			if in(rt.Custom, c.label(where)) {
+				return ""
+			}
+			return "handler is a parameter of " + c.label(where) + ", which is not a listed custom registrar"
+		case *ssa.UnOp:
+			if a, ok := v.X.(*ssa.Alloc); ok && v.Op == token.MUL {
+				// a local variable holding the handler: every store into it must classify
+				for _, ref := range *a.Referrers() {
+					if st, ok := ref.(*ssa.Store); ok && st.Addr == ssa.Value(a) {
+						if p := classify(st.Val, where, depth+1); p != "" {
+							return p
+						}
+					}
+				}
+				return ""
+			}
+		}
+		return fmtf("handler value of unrecognised shape (%T)", v)
+	}
+	seen := 0
+	for label, fn := range c.fnByLabel {
+		for _, b := range fn.Blocks {
+			for _, ins := range b.Instrs {
+				ci, ok := ins.(ssa.CallInstruction)
+				if !ok {
+					continue
+				}
+				cc := ci.Common()
+				if !in(rt.Register, c.calleeLabel(cc)) {
+					continue
+				}
+				seen++
+				for _, a := range cc.Args {
+					t := a.Type()
+					_, isSig := t.Underlying().(*types.Signature)
+					_, isIface := t.Underlying().(*types.Interface)
+					if !isSig && !isIface {
+						continue
+					}
+					if p := classify(a, fn, 0); p != "" {
+						problems = append(problems, fmtf("%s at %s (in %s)", p, c.fset.Position(ci.Pos()), label))
+					}
+				}
+			}
+		}
+	}
+	if seen == 0 {
+		problems = append(problems, "no call of a registering function found (declaration is vacuous)")
+	}
+	sort.Strings(problems)
 	return problems
 }
